@@ -197,6 +197,10 @@ def run(ctx):
         "cases": lambda: run_tlc("IfaceGen", _gen_cfg("cases", formats, 1, max_val, False), scratch=ctx.scratch,
                                  workers=4, dump=d_cases, timeout=900),
     }
+    d_extra = {m: ctx.scratch / f"{m}.dump" for m in ("heads", "opfs", "alts")}
+    for m in d_extra:
+        runs[m] = (lambda m=m: run_tlc("IfaceGen", _gen_cfg(m, formats, 1, 1, False, invs=[]), scratch=ctx.scratch,
+                                       workers=2, dump=d_extra[m]))
     for mode, dev, inv in sens:
         runs["sens:" + dev] = (lambda mode=mode, dev=dev, inv=inv: run_tlc(
             "IfaceGen", _gen_cfg(mode, formats, 1, 1, False, dev=[dev], invs=[inv]), scratch=ctx.scratch, workers=2,
@@ -212,6 +216,9 @@ def run(ctx):
         ev.tlc("IfaceGen paths: replay universe (<= 2 segments)", tr["replay"])
     ev.tlc("IfaceGen units: reference \\uN decoding is well-formed and inverts ToUnits, all runs <= 3 units", tr["units"])
     ev.tlc("IfaceGen cases: (path form x property value x format)", tr["cases"])
+    ev.tlc("IfaceGen heads: layouts of the HTML / MHTML head x property values", tr["heads"])
+    ev.tlc("IfaceGen opfs: layouts of the EPUB package document x property values", tr["opfs"])
+    ev.tlc("IfaceGen alts: (format x picture name x title x description), each absent / empty / blank / text", tr["alts"])
     for k in ("laws", "units", "cases"):
         if tr[k].violated:
             v.violation(what=f"IfaceGen ({k}): {tr[k].violated} violated on the specification", observed=tr[k].trace[:1])
@@ -225,9 +232,14 @@ def run(ctx):
     paths = sorted((_plain(s["c"]["path"]) for s in _dump_states(d_paths)), key=lambda d: json.dumps(d, sort_keys=True))
     cases = sorted((_plain(s["c"]) for s in _dump_states(d_cases)), key=lambda d: json.dumps(d, sort_keys=True))
     units = sorted(_plain(s["c"]["units"]) for s in _dump_states(d_units))
+    extra = {m: sorted((_plain(s["c"]) for s in _dump_states(d_extra[m])), key=lambda d: json.dumps(d, sort_keys=True))
+             for m in d_extra}
+    if not all(extra.values()):
+        raise MachineryError("empty dump of the heads / opfs / alts universes: " + str({m: len(x) for m, x in extra.items()}))
     if len(paths) != n_paths or not cases or not units:
         raise MachineryError(f"dump sizes: paths {len(paths)}/{n_paths}, cases {len(cases)}, units {len(units)}")
-    ctx.log(f"TLC enumerated {len(paths)} abstract paths, {len(cases)} (form x value x format) cases, {len(units)} \\uN runs")
+    ctx.log(f"TLC enumerated {len(paths)} abstract paths, {len(cases)} (form x value x format) cases, {len(units)} \\uN runs, "
+            f"{len(extra['heads'])} head layouts, {len(extra['opfs'])} OPF layouts, {len(extra['alts'])} picture alt-text cases")
 
     # ------------------------------------------------------------------ 2. jobs
     if os.path.exists(L.NX_ROOT):
@@ -244,6 +256,7 @@ def run(ctx):
         jobs.append(job)
         meta[job["id"]] = m
 
+    none_sp0 = {"root": "none", "dirs": [], "stem": "", "exts": [], "fexists": False, "dexists": False}
     replay_paths = list(enumerate(paths))
     if not ctx.thorough and len(replay_paths) > 400:      # quick: a seeded sample (the laws are decided on all of them)
         replay_paths = sorted(random.Random(ctx.seed + 1).sample(replay_paths, 400))
@@ -263,6 +276,29 @@ def run(ctx):
         ap = paths[(i * 7) % len(paths)]
         sp = L.spell_path(ap, random.Random(f"{ctx.seed}:u:{i}"), own_ext="rtf")
         add({"id": f"units:{i}", "fmt": "rtf", "data": L.units_rtf(u), "sp": sp, "units": u}, kind="units", abstract=u, fmt="rtf")
+
+    # markup layouts of the stored properties: HTML / MHTML head, EPUB package document
+    form_paths = [c["path"] for c in cases if c["val"] == ["a", "e1"] and c["fmt"] == cases[0]["fmt"]]
+    for i, c in enumerate(extra["heads"] + extra["opfs"]):
+        f = c["fmt"]
+        r2 = random.Random(f"{ctx.seed}:layout:{i}")
+        props = {k: L.spell_val(c["val"], k) for k in L.FIELDS}
+        doc = L.enrich(rich_doc(f, ctx.seed))
+        doc["props"] = props
+        if c["kind"] == "head":
+            data = L.html_variant(doc, c["layout"], r2)
+            if f == "mhtml":
+                data = L.mhtml_wrap(data, r2)
+        else:
+            data = L.epub_variant(render(doc, f), props, c["layout"])
+        sp = L.spell_path(form_paths[i % len(form_paths)], r2, own_ext=f)
+        add({"id": f"{c['kind']}:{i}", "fmt": f, "data": data, "sp": sp, "props": props}, kind=c["kind"], abstract=c, fmt=f)
+    # alternative texts of pictures (post-processed packages of the shared writers)
+    for i, c in enumerate(extra["alts"]):
+        a = c["alt"]
+        data = L.alt_variant(base[a["fmt"]], a["fmt"], a)
+        add({"id": f"alt:{i}", "fmt": a["fmt"], "data": data, "sp": dict(none_sp0), "parg": None, "mat": False},
+            kind="alt", abstract=a, fmt=a["fmt"])
 
     # well-formed containers whose picture payloads are not recognisable images (accepted by every extractor)
     none_sp = {"root": "none", "dirs": [], "stem": "", "exts": [], "fexists": False, "dexists": False}
@@ -329,7 +365,7 @@ def run(ctx):
             traces.append({"id": f"{j['id']}@{k}", "hdr": hdr, "ev": evs[k:k + L.MAX_EVENTS_PER_TRACE]})
             owner.append((j, r, k))
     ctx.log("extraction outcomes: " + ", ".join(f"{k[0]}/{k[1]}={n}" for k, n in sorted(stat.items())))
-    gen_kinds = ("path", "case", "units", "imgdamage")
+    gen_kinds = ("path", "case", "units", "imgdamage", "head", "opf", "alt")
     gen_total = sum(n for (k, s), n in stat.items() if k in gen_kinds)
     gen_ok = sum(n for (k, s), n in stat.items() if k in gen_kinds and s == "ok")
     if gen_ok < 0.9 * gen_total:
@@ -369,7 +405,7 @@ def run(ctx):
         if r["status"] == "ok" and m["kind"] != "fixture":
             ev.nontrivial((m["kind"], json.dumps(m.get("abstract"), sort_keys=True), m.get("file"), r.get("msg")))
     shown = 0
-    for want in ("path", "case", "units", "imgdamage", "fixture", "mutant"):
+    for want in ("path", "case", "units", "head", "opf", "alt", "imgdamage", "fixture", "mutant"):
         for j in jobs:
             m, r = meta[j["id"]], results[j["id"]]
             if m["kind"] == want and r["status"] == "ok" and r["events"]:
@@ -385,7 +421,8 @@ def run(ctx):
                 "+ seeded mutants of fixtures and generated files that are still accepted; the whole accessor protocol is "
                 "recorded on every result and validated by TLC (IfaceTrace); non-trivial = distinct generated case or accepted mutant",
            exhaustive=bool(ctx.thorough),       # quick replays a seeded sample of the enumerated paths
-           constants={"MaxDirs": max_dirs, "MaxVal": max_val, "paths": len(paths), "paths_replayed": len(replay_paths), "cases": len(cases), "unit_runs": len(units),
+           constants={"MaxDirs": max_dirs, "MaxVal": max_val, "paths": len(paths), "paths_replayed": len(replay_paths), "cases": len(cases), "unit_runs": len(units), "head_layout_cases": len(extra["heads"]),
+                      "opf_layout_cases": len(extra["opfs"]), "picture_alt_cases": len(extra["alts"]),
                       "fixtures": len(fixtures), "mutants_tried": sum(n for (k, s), n in stat.items() if k == "mutant"),
                       "mutants_accepted": acc, "accessor_events_validated": n_events,
                       "skipped_timeouts": sum(n for (k, s), n in stat.items() if s == "timeout"), "formats": formats})
